@@ -300,7 +300,37 @@ func (g *Gen) fuel() (string, L.Stmt) {
 	return n, local1(n, num(float64(1+g.n(5, "fuel"))))
 }
 
+// bareLocalLoop: a declaration without values right before a loop whose body (a backward-jump target) starts with another
+// one: every pass through `local q` makes q nil again, whatever it held at the end of the pass before.
+func (g *Gen) bareLocalLoop() []L.Stmt {
+	id := strconv.Itoa(g.ctr)
+	g.ctr++
+	n, p, q, r := "bn"+id, "bp"+id, "bq"+id, "br"+id
+	g.class("bare_locals_at_loop_entry")
+	head := []L.Stmt{local1(n, num(0)), local([]string{p})}
+	body := []L.Stmt{local([]string{q}), local([]string{r}), emit(name(p), name(q), name(r)), assign1(name(q), bin("+", name(n), num(10))), assign1(name(r), str("set")), assign1(name(p), name(q)), assign1(name(n), bin("+", name(n), num(1)))}
+	var loop []L.Stmt
+	switch g.n(4, "bareloop") {
+	case 0:
+		loop = []L.Stmt{&L.RepeatStmt{Body: blk(body...), Cond: bin(">=", name(n), num(3))}}
+	case 1:
+		loop = []L.Stmt{&L.WhileStmt{Cond: &L.TrueExpr{}, Body: blk(append(body, ifs(bin(">=", name(n), num(3)), blk(&L.BreakStmt{}), nil))...)}}
+	case 2:
+		lbl := g.fresh("L")
+		loop = append([]L.Stmt{&L.LabelStmt{Name: lbl}}, append(body, ifs(bin("<", name(n), num(3)), blk(&L.GotoStmt{Label: lbl}), nil))...)
+	default:
+		loop = []L.Stmt{&L.WhileStmt{Cond: bin("<", name(n), num(3)), Body: blk(body...)}}
+	}
+	if g.P.NoGoto && len(loop) > 1 {
+		loop = []L.Stmt{&L.RepeatStmt{Body: blk(body...), Cond: bin(">=", name(n), num(3))}}
+	}
+	return []L.Stmt{&L.DoStmt{Body: blk(append(head, loop...)...)}}
+}
+
 func (g *Gen) whileLoop(d int) []L.Stmt {
+	if g.n(5, "barelocalloop") == 0 {
+		return g.bareLocalLoop()
+	}
 	fn, decl := g.fuel()
 	m := g.mark()
 	g.fn.loopDepth++
